@@ -119,7 +119,7 @@ def _scaled_followups(fx, np, x):
     return out
 
 
-def observe_scaled(fx, np, props, t, modes, scale, bias, us, route='ctor', scalar=True, infer=False):
+def observe_scaled(fx, np, props, t, modes, scale, bias, us, route='ctor', scalar=True, infer=False, npcar=None):
     """scale, bias: Fractions (dyadic).  us: the unscaled grid values u; the user-level inputs are v = u*scale + bias."""
     row = {'k': 'scaled', 'p': list(props), 's': bool(t[0]), 'w': t[1], 'f': t[2], 'r': modes[0], 'o': modes[1], 'sc': wdy(scale),
            'b': wdy(bias), 'route': route, 'carrier': 'scalar' if scalar else 'array', 'agg': not scalar, 'infer': bool(infer)}
@@ -131,6 +131,22 @@ def observe_scaled(fx, np, props, t, modes, scale, bias, us, route='ctor', scala
             if F(float(v)) != v:
                 raise AssertionError('driver produced an inexact double')
         kw = dict(rounding=modes[0], overflow=modes[1], scale=s_, bias=b_)
+        if npcar:           # inputs carried by a (narrow) NumPy dtype: only the inputs that dtype holds exactly
+            tp = getattr(np, npcar)
+
+            def fits(v):
+                try:
+                    with np.errstate(all='ignore'):
+                        c = tp(int(v)) if np.dtype(tp).kind in 'iu' else tp(float(v))
+                    return (v.denominator == 1 or np.dtype(tp).kind == 'f') and np.isfinite(float(c)) and F(float(c)) == v and \
+                        (np.dtype(tp).kind == 'f' or np.iinfo(tp).min <= int(v) <= np.iinfo(tp).max)
+                except (OverflowError, ValueError):
+                    return False
+            keep = [i for i, v in enumerate(vs) if fits(v)]
+            us, vs = [us[i] for i in keep], [vs[i] for i in keep]
+            if not vs:
+                return None
+            row['carrier'] = ('scalar:' if scalar else 'array:') + npcar
         cs, rbs, fo, fu, fi, lims, zs = [], [], [], [], [], None, None
 
         def one(obj):
@@ -150,7 +166,7 @@ def observe_scaled(fx, np, props, t, modes, scale, bias, us, route='ctor', scala
         allint = all(v.denominator == 1 for v in vs)
         if scalar:
             for j, v in enumerate(vs):
-                x = one(int(v) if (v.denominator == 1 and j % 2 == 0) else float(v))       # Python int / float carriers
+                x = one(tp(int(v)) if (npcar and np.dtype(tp).kind in 'iu') else tp(float(v)) if npcar else int(v) if (v.denominator == 1 and j % 2 == 0) else float(v))       # NumPy scalar / Python int / float carriers
                 c = common.codes_of(x)
                 fl = common.flags_of(x)
                 cs.append(wint(c[0])); rbs.append(wdy(float(np.asarray(x.get_val(), dtype=float).ravel()[0])))
@@ -158,7 +174,9 @@ def observe_scaled(fx, np, props, t, modes, scale, bias, us, route='ctor', scala
                 lims = [wdy(float(x.upper)), wdy(float(x.lower)), wdy(float(x.precision))]
                 zs = fmt_of(x)
         else:
-            if allint and len(vs) % 3 == 0:
+            if npcar:
+                x = one(np.array([int(v) if np.dtype(tp).kind in 'iu' else float(v) for v in vs], dtype=tp))
+            elif allint and len(vs) % 3 == 0:
                 x = one([int(v) for v in vs])                    # Python list of ints
             elif allint and len(vs) % 3 == 1:
                 x = one(np.array([int(v) for v in vs], dtype=np.int64))
